@@ -22,8 +22,8 @@ PROP = {'drive': ['Total'] + ['Total' + g for g in _GROUPS],
                        'C02_cffindex_no_panic', 'C02_cffindex_cost', 'C02_cffindex_agrees',
                        'C02_cmap_no_panic', 'C02_cmap_cost_partial', 'C02_cmap_agrees', 'C02_lazy_safe_cmap_get',
                        'C02_cmap0_no_panic', 'C02_lazy_safe_cmap0', 'C02_cmap6_no_panic', 'C02_cmap6_cost', 'C02_cmap06_agree',
-                       'C02_coverage_no_panic', 'C02_coverage_cost', 'C02_classdef_no_panic', 'C02_classdef_cost_partial',
-                       'C02_classdef_cost_fails', 'C02_classdef_repaired_cost', 'C02_otl_agree', 'C02_gdef_concrete_no_panic',
+                       'C02_coverage_no_panic', 'C02_coverage_cost', 'C02_classdef_no_panic', 'C02_classdef_cost',
+                       'C02_classdef_unrepaired_cost_fails', 'C02_classdef_unrepaired_cost', 'C02_otl_agree', 'C02_gdef_concrete_no_panic',
                        'C02_gdef_unrepaired_alias', 'C02_gdef_alias_cached'],
  'areas': [('total', 3000, 40000)],
  'rule': 'distinct case lines (decoder, bytes); non-trivial = input of at least 4 bytes',
@@ -35,8 +35,8 @@ PROP = {'drive': ['Total'] + ['Total' + g for g in _GROUPS],
      'utf16Decode, CFF readIndex, coverage.Read/ReadSet, classdef.Read',
      'cost clause TRUE ONLY IN A WEAKER FORM (proved as *_cost_partial, negation of the linear clause proved where stated): '
      'gdef.Read ((|b|/4+3)(C+2), C02_gdef_alloc_fails), name.Decode (records x length up to a cap, C02_name_cost_fails), '
-     'cmap.Decode (steps quadratic in the number of records: 64*steps <= 64+|b|^2; allocation linear), classdef.Read format 2 '
-     '(ranges x 65536, zigzag witness), decodeFormat4/12, coverage format 2 and SimpleGlyph.Decode (linear plus the constant 65536)',
+     'cmap.Decode (steps quadratic in the number of records: 64*steps <= 64+|b|^2; allocation linear); decodeFormat4/12, coverage '
+     'format 2, classdef.Read (since 92dc1a2) and SimpleGlyph.Decode are linear plus the constant 65536',
      'modelled: no / proved: no (fuzz-tied only, stream D:total.<decoder> and total.adv families; search, not proof): sfnt.Read '
      '(table merge), cff.Read above INDEX level (DICT, charset, encoding, FDSelect, charstring interpreter), gtab.Read (script/'
      'feature/lookup lists and all subtable readers), post.Read bridge to the C14 names model, readIndexAt',
@@ -45,10 +45,11 @@ PROP = {'drive': ['Total'] + ['Total' + g for g in _GROUPS],
      'wall-time and runtime.MemStats bounds are checked per case against generous constants '
      '(alloc <= 4096*len + 16 MiB, time <= 50 us*len + 3 s, 10 s time-out); they calibrate, they do not prove',
      'open cost findings (replayed on every run from known_findings.jsonl): gdef distinct 10-byte coverage tables per set (rest of #37), '
-     'classdef format 2 backward ranges (#36; patch 03 offered), context-rule aliasing (#27), name record aliasing (new), '
-     'lookup-list aliasing (new); repaired under this property: kern pair count (#35), glyph-name count (Font.GlyphName panic), '
+     'context-rule aliasing (#27), name record aliasing (new), lookup-list aliasing (new), re-encoding refused by an explicit '
+     'encoder panic (C02-reencode-refused; counted as its own outcome class by the generator, strict=1 on the known line); repaired under this property: kern pair count (#35), glyph-name count (Font.GlyphName panic), '
      'CFF Private DICT size (#40, patch 01), Type 2 operation budget (#26, patch 02), gdef aliased mark-glyph-set offsets (#37, patch 04), '
-     'Format0.Lookup negative rune (new, patch 05)'],
+     'Format0.Lookup negative rune (new, patch 05), classdef format 2 backward ranges (#36, patch 03); offered: zero glyph counts in '
+     'the chained-context and ligature readers (patch 06, needs the C08 model change)'],
  'modelled_not_verified': [
      'parser.Parser is taken as a plain byte view of an in-memory reader (theorem C17); ReadBytes(n>1024) is the only panic site and every modelled call has a constant argument',
      'sort.Slice in header.Read is re-implemented as List.mergeSort and charged n*(log2 n+1) steps',
